@@ -163,6 +163,7 @@ func VH_c07_active_disable() {
 	}
 	// the operator disables the neighbour
 	f.adminStateCh <- adminStateOperation{State: adminStateDown}
+	vEventually(func() bool { mu.Lock(); defer mu.Unlock(); return len(seen) >= 1 && f.state.Load() == bgp.BGP_FSM_IDLE })
 	vSettle()
 	mu.Lock()
 	n := len(seen)
@@ -328,7 +329,7 @@ func VH_c07_lifecycle() {
 		vAssert(notif && code == bgp.BGP_ERROR_HOLD_TIMER_EXPIRED && sub == 0 && conn.closed, "hold timer expiry is not announced with Hold Timer Expired and the connection closed")
 	case c07lDisable:
 		f.adminStateCh <- adminStateOperation{State: adminStateDown}
-		vSettle()
+		vEventually(func() bool { return len(snapshot()) >= 5 && f.state.Load() == bgp.BGP_FSM_IDLE })
 		l = snapshot()
 		vAssert(len(l) == 5 && l[4].next == bgp.BGP_FSM_IDLE && l[4].reason == fsmAdminDown, "disabling an Established peer does not end the session with Idle (administrative down)")
 		code, sub, notif, _, _ := conn.written()
